@@ -169,7 +169,7 @@ def checkAgainstReference (id impl : String) (ref : Option String) (refDepth : N
 
 /-! ### the examples of the document (doc/17-language-reference.md, table "Operators", column "Examples (Result)")
 
-Every `expression (result)` pair of the table is a program `[ expression, result ]` of family `docex` (corpus/C15/reference_examples.ops):
+Every `expression (result)` pair of the table is a program `[ expression, result ]` of family `docex` (generated on every run from the document and corpus/C15/reference_example_templates.tpl):
 the real evaluator must answer an array of two EQUAL values — the documented result is what the expression yields. -/
 
 /-- `r` is `v:[A,B]` with `A = B` (canonical scalars contain no comma) -/
@@ -181,8 +181,8 @@ def pairEqual (r : String) : Bool :=
      let b := (inner.dropWhile (· != ',')).drop 1
      !a.isEmpty && a == b)
 
-/-- `reference_example_as_documented` — a documented example evaluates to its documented result (violated by the unchanged tree for
-    `~true (false)`: the code answers -2, finding F-C15g). -/
+/-- `reference_example_as_documented` — a documented example evaluates to its documented result (finding F-C15g, repaired by 86ab6e0: the
+    document said `~true (false)` where the code answers -2). -/
 def checkDocExample (id impl : String) : Option String :=
   if tagOf id != "docex" then none
   else if isCrash impl || isTimeout impl then none          -- reported by `no_crash` / not an answer
